@@ -466,7 +466,7 @@ func (h *httpServerHandler) handlePostResponse(ctx context.Context, w http.Respo
 	h.logger.Debugf("Received JSON-RPC response for session %s, ID: %v", sessionID, response.ID)
 
 	// Prepare response data
-	requestIDStr := fmt.Sprintf("%v", response.ID)
+	requestIDStr := requestIDKey(response.ID)
 	var responseMessage *json.RawMessage
 
 	// Handle error response.
@@ -780,7 +780,7 @@ func (h *httpServerHandler) SendRequest(ctx context.Context, sessionID string, r
 	}
 
 	// Register request and get response channel.
-	requestIDStr := fmt.Sprintf("%v", request.ID)
+	requestIDStr := requestIDKey(request.ID)
 	responseChan := h.responseManager.RegisterRequest(requestIDStr, sessionID)
 	defer h.responseManager.UnregisterRequest(requestIDStr)
 
